@@ -191,6 +191,33 @@ def run(ctx):
                 hist = [float(v) for v in rest['AXA-A']]
                 if hist and abs(tr - hist[-1]) > 1e-9 * nrm + 1e-6 * hist[-1]: viol(f'C03:{nm}:tolerance-stop:history', f'after a tolerance stop the last reported ||AXA-A|| ({hist[-1]:.3e}) is not the residual of the returned X ({tr:.3e})', inp, hist[-1], tr)
                 ctx.count(('tolstop', nm, m, n, tolv), True)
+    # late entries of the step (covariance) history: entry k is ||X_k A - I||_F (resp. ||A X_k - I||_F) of the iterate it was taken from, also
+    # when that value is far below sqrt(machine epsilon); and a tolerance stop without residual tracking returns X within tol / s_min^2
+    for (m, n, sv) in ((3, 2, [Fraction(2), Fraction(1)]), (4, 7, [Fraction(3), Fraction(2), Fraction(3, 2), Fraction(1)]), (5, 5, [Fraction(2), Fraction(3, 2), Fraction(1), Fraction(1), Fraction(1, 2)])):
+        At, Ut, Vt = spectral_problem(rng, m, n, sv); Atn = qx.to_np(At)
+        Dp = qx.zeros(n, m)
+        for i, s_ in enumerate(sv): Dp[i][i] = Q(1 / s_)
+        Apn = qx.to_np(qx.mm(qx.mm(Vt, Dp), qx.herm(Ut)))
+        eye = np.zeros((min(m, n), min(m, n), 4)); eye[:, :, 0] = np.eye(min(m, n)); eye = quaternion.as_quat_array(eye)
+        for gam in (0.5, 0.7):
+            for K in ((24, 34) if ctx.quick() else (18, 24, 30, 36, 44)):
+                inp = {'solver': 'damped', 'shape': [m, n], 'singular_values': [str(x) for x in sv], 'gamma': gam, 'max_iter': K, 'tol': 0.0}
+                try:
+                    _, _, covK = solver.NewtonSchulzPseudoinverse(gamma=gam, max_iter=K, tol=0.0, compute_residuals=False).compute(Atn)
+                    Xp, _, _ = solver.NewtonSchulzPseudoinverse(gamma=gam, max_iter=K - 1, tol=0.0, compute_residuals=False).compute(Atn)
+                except Exception as e: viol('C03:damped:late-history:raises', f'damped solver raised {e!r}', inp); continue
+                if len(covK) != K: viol('C03:damped:late-history:length', 'history length differs from the iteration budget (tol = 0)', inp, len(covK)); continue
+                prod = utils.quat_matmat(Xp, Atn) if m >= n else utils.quat_matmat(Atn, Xp)
+                tv = float(np.linalg.norm(quaternion.as_float_array(prod - eye)))
+                if abs(float(covK[-1]) - tv) > 1e-6 * tv + 1e-14: viol('C03:damped:late-history', f'step-history entry {K} ({float(covK[-1]):.3e}) is not the deviation of the iterate it was taken from ({tv:.3e})', inp, float(covK[-1]), tv)
+                ctx.count(('late-history', m, n, gam, K), True)
+            for tolv in (1e-9, 1e-11):
+                inp = {'solver': 'damped', 'shape': [m, n], 'singular_values': [str(x) for x in sv], 'gamma': gam, 'tol': tolv, 'compute_residuals': False}
+                try: Xs_, _, covs = solver.NewtonSchulzPseudoinverse(gamma=gam, max_iter=400, tol=tolv, compute_residuals=False).compute(Atn)
+                except Exception as e: viol('C03:damped:tolerance-stop:untracked:raises', f'damped solver raised {e!r}', inp); continue
+                err = float(np.linalg.norm(quaternion.as_float_array(Xs_ - Apn))); smin = float(min(sv))
+                if len(covs) < 400 and err > 1.01 * tolv / smin ** 2 + 1e-13: viol('C03:damped:tolerance-stop:untracked', f'stopped on its tolerance after {len(covs)} steps with ||X - A^+||_F = {err:.3e} > tol / s_min^2 = {tolv / smin ** 2:.3e}', inp, err, tolv / smin ** 2)
+                ctx.count(('tolstop-untracked', m, n, gam, tolv), True)
     _A, _, _ = spectral_problem(rng, 3, 2, [Fraction(2), Fraction(1)]); _A = qx.to_np(_A)
     cm.layout_sweep(ctx, qx, 'C03', 'NewtonSchulzPseudoinverse', lambda X: solver.NewtonSchulzPseudoinverse(gamma=0.5, max_iter=4, tol=0.0).compute(X)[0], _A, {'shape': [3, 2]})
     cm.layout_sweep(ctx, qx, 'C03', 'HigherOrderNewtonSchulzPseudoinverse', lambda X: solver.HigherOrderNewtonSchulzPseudoinverse(max_iter=3, tol=0.0).compute(X)[0], _A, {'shape': [3, 2]})
